@@ -8,6 +8,9 @@ from .. import common, translate, gen, l1, replies, rustc_batch
 from ..prog import Contract, Interface, Method, Arg, P, PP, sv_msg, sv_attr, sv_msg_attr, sv_override, sv_features, sv_error, sv_custom, Attr
 from . import replyprops
 
+THEOREMS_T = ["c18_translated_attribute_parser", "c18_translated_second_msg_attribute_is_refused", "c18_translated_first_msg_attribute_wins",
+              "c18_translated_variant_attr_on_struct_message_is_refused", "c18_translated_bare_payload_and_data",
+              "c18_translated_missing_or_duplicated_handler"]
 THEOREMS = ["c18_missing_constructor", "c18_parameterised_constructor", "c18_no_instantiate", "c18_several_instantiate",
             "c18_several_migrate", "c18_interface_generics", "c18_interface_without_error_type", "c18_instantiate_inside_interface",
             "c18_migrate_inside_interface", "c18_bad_attribute_argument_is_reported", "c18_method_attribute_error_rejects_the_contract",
@@ -159,6 +162,10 @@ def check(run, replay=None):
                 "error / not first, no payload, raw plus more, instantiate+raw) vs the model and vs the rule stated in Python; rustc: a batch "
                 "of invalid programs really compiled, error text and the line the error points at; non-trivial = distinct program")
     replyprops.preamble(run, "Props/C18", THEOREMS)
+    # strengthening tie: the attribute parser and StructMessage::new translated from the source (GenImpParse.v, GenImpAttr.v)
+    from . import libcommon
+    libcommon.regen_imp(run)
+    run.prove("Props/C18T", THEOREMS_T, strengthening=True)
     # ---- contracts / interfaces with planted edits
     g = gen.ProgGen(rng)
     progs, metas = [], []
